@@ -13,7 +13,7 @@ RULE = ("histories (tree; `group` run; edits at a chosen logical instant; dedupe
         "with other files still pending, t3 after all hashing but before the report is written, t4 after `group` exited "
         "(edit >= 25 ms later). Edits (to 1..all members of a group): rewrite with the same / a different length, append, "
         "truncate, delete, delete+recreate, replace by a directory, by a dangling symlink, by a symlink to a freshly written "
-        "file, touch. Then each of the five operations on the text or JSON report. Oracle: inventory taken just before the "
+        "file, touch. Both commands run under a time zone drawn from UTC and zones east and west of it. Then each of the five operations on the text or JSON report. Oracle: inventory taken just before the "
         "dedupe command vs after: no content digest held by a regular file may disappear (move: counting the target "
         "directory), and after link / link --soft / dedupe every regular file still reads back the same bytes. "
         "non-trivial = history whose edit changed content of a group member and whose dedupe run would otherwise have "
@@ -89,6 +89,8 @@ def _run(r, scratch, i):
     fmt = r.choice(["default", "json"])
     kind = r.choice([None, "ssd", "hdd"])
     o = {"hash_fn": r.choice(["metro", "blake3"]), "kind": kind, "threads": r.choice([None, ["1"], ["default:4,4"]])}
+    # the user's time zone (POSIX TZ strings need no tz database); both commands run in the same one
+    tz = r.choice(["UTC", "UTC", "JST-9", "EST5EDT", "NPT-5:45", "AEST-10", "PST8", "<+14>-14"])
     instant = r.choice(["t1", "t2-prefix", "t2-suffix", "t2-contents", "t3", "t3b", "t4", "t4"])
     X = r.choice(members)
     point = {"t1": "scan.done", "t2-prefix": "hash.done.prefix:" + os.path.basename(X).decode(),
@@ -98,7 +100,7 @@ def _run(r, scratch, i):
     edit_kinds = [r.choice(EDITS) for _ in victims]
     pd = os.path.join(d, "pause")
     os.makedirs(pd)
-    env = gm.env_for(o, home, {"FCLONES_VERIF_PAUSE": point, "FCLONES_VERIF_PAUSE_DIR": pd} if point else None)
+    env = gm.env_for(o, home, dict({"FCLONES_VERIF_PAUSE": point, "FCLONES_VERIF_PAUSE_DIR": pd} if point else {}, TZ=tz))
     argv = [fse(common.fclones_bin())] + gm.group_argv(dict(o, transform=None), ["r0"], fmt)
     p = subprocess.Popen(argv, env=env, cwd=troot, stdin=subprocess.DEVNULL, stdout=subprocess.PIPE, stderr=subprocess.PIPE)
     reached = False
@@ -145,11 +147,12 @@ def _run(r, scratch, i):
         cfg["priority"] = [r.choice(dd.PRIORITIES)]
     log = os.path.join(d, "shim.log")
     senv = shimlog.shim_env(log, [troot] + ([target] if target else []), ficlone=(op == "dedupe"))
+    senv["TZ"] = tz
     dres, dargv = dd.run_dedupe(op, cfg, report, troot, home, target=target, extra_env=senv)
     post = inventory.take(troot)
     tpost = inventory.take(target) if target else {}
     witness = {"case": i, "spec": spec, "instant": instant, "pause_point": point, "victims": [fsd(v) for v in victims],
-               "edits": edit_kinds, "group_argv": [fsd(a) for a in argv], "group_stderr": err.decode("utf-8", "replace")[-800:],
+               "edits": edit_kinds, "TZ": tz, "group_argv": [fsd(a) for a in argv], "group_stderr": err.decode("utf-8", "replace")[-800:],
                "op": op, "fmt": fmt, "dedupe_argv": [fsd(a) for a in dargv], "dedupe_rc": dres.rc,
                "dedupe_stderr": dres.err_text()[-2500:], "report": report.decode("utf-8", "replace")[:3000]}
     if dres.timed_out:
@@ -183,11 +186,11 @@ def _run(r, scratch, i):
     nops = len(dd.log_ops(ev, op))
     content_changed = any(e in ("rewrite-same-len", "rewrite-other-len", "append", "truncate", "delete-recreate", "to-symlink-to-fresh-file")
                           for e in edit_kinds)
-    sig = (sigi, tuple(sorted(set(edit_kinds))), op, fmt) if content_changed else None
+    sig = (sigi, tuple(sorted(set(edit_kinds))), op, fmt, tz) if content_changed else None
     skipped = dres.err_text().count("Could not determine files to drop") + dres.err_text().count("Skipping file")
-    return [ok(sig, {"instant": instant, "edits": edit_kinds, "op": op, "fmt": fmt, "ops_done": nops, "skip_warnings": skipped},
+    return [ok(sig, {"instant": instant, "edits": edit_kinds, "op": op, "fmt": fmt, "TZ": tz, "ops_done": nops, "skip_warnings": skipped},
                {"instants": [sigi], "edit_kinds": edit_kinds, "dedupe_ops_done": nops, "groups_or_files_skipped": skipped,
-                "pause_reached": 1 if reached else 0})]
+                "pause_reached": 1 if reached else 0, "time_zones": [tz]})]
 
 
 def main(tier, seed, cases=None):
